@@ -21,7 +21,7 @@ def _is_test_path(rel):
 
 
 class ModuleInfo:
-    def __init__(self, name, relpath, source):
+    def __init__(self, name, relpath, source, inline=False):
         self.name = name                 # DocumentTemplate.DT_In
         self.short = name.split('.')[-1] if not name.endswith('__init__') \
             else name
@@ -29,7 +29,15 @@ class ModuleInfo:
         self.source = source
         self.tree = ast.parse(source, filename=relpath)
         from .normalise import desugar_with
+        from .normalise import inline_new_helpers
         self.cm_classes = desugar_with(self.tree)
+        short = name.split('.')[-1] if not relpath.endswith(
+            '__init__.py') else name
+        # N2 (inlining of helpers that are new w.r.t. the reference tree)
+        # is an opt-in view: rules that follow paths through one function
+        # ask for it (Model.inlined_view()), pattern rules use the plain
+        # view and follow helpers themselves (Model.closure)
+        self.inlined = inline_new_helpers(self.tree, short) if inline else 0
         self.imports = {}                # local name -> (module, attr|None)
         self.funcs = {}                  # qualname -> FuncInfo
         self.classes = {}                # name -> ClassInfo
@@ -124,7 +132,9 @@ def enclosing_func_node(node):
 class Model:
     """Parsed view of the shipped packages of the repository."""
 
-    def __init__(self, sources=None, root=None):
+    def __init__(self, sources=None, root=None, inline=False):
+        self.inline = inline
+        self._inlined_view = None
         self.root = root or REPO_DIR
         self.modules = {}            # short name -> ModuleInfo
         self.by_full = {}
@@ -171,7 +181,7 @@ class Model:
             full = '.'.join(modparts)
             short = modparts[-1]
         try:
-            m = ModuleInfo(full, rel, src)
+            m = ModuleInfo(full, rel, src, inline=self.inline)
         except SyntaxError as e:
             raise AnalysisError(f'{rel} does not parse: {e}')
         m.short = short
@@ -289,6 +299,16 @@ class Model:
             raise AnalysisError(
                 f'class {short}:{name} not found (anchor vanished)')
         return c
+
+    def inlined_view(self):
+        """The same sources with helpers that are new w.r.t. the reference
+        tree inlined at their call sites (normalise.N2)."""
+        if self.inline:
+            return self
+        if self._inlined_view is None:
+            self._inlined_view = Model(sources=self.sources, root=self.root,
+                                       inline=True)
+        return self._inlined_view
 
     def closure(self, fi, depth=3):
         """fi plus the helpers it calls, transitively: methods of its own
